@@ -4,7 +4,7 @@ import sys
 import types
 from fractions import Fraction
 
-sys.path.insert(0, "/repo")
+sys.path.insert(0, __import__("os").environ.get("VERIF_REPO", "/repo"))
 import numpy as np
 import scipy.sparse as sps
 
